@@ -274,18 +274,17 @@ def check_select_shape(ctx):
         ctx.decide('SELECT-SHAPE', fid, f'{name} starts from '
                    f'{txt(first) if first is not None else "?"}',
                    True if good else None, at=fid.where(stmt))
-    # (b) the selection comprehension of filter_by / select_by
+    # (b) the selection of filter_by / select_by
     shapes = {}
     for mname in ('filter_by', 'select_by'):
         meth = klass.methods.get(mname)
         if meth is None:
             raise AnalysisError(f'Browser.{mname} not found')
-        comps = _selection_comps(meth)
-        ctx.floor(f'SELECT-SHAPE[{mname}]', len(comps), 1,
-                  'selection comprehension')
         assigns = _local_assigns(meth)
         _scan_tuple_sources(meth)
-        for comp in comps:
+        # order of the items: every comprehension that takes items out of
+        # self.content by position iterates sorted(ids)
+        for comp in _selection_comps(meth):
             gen = comp.generators[0]
             ordered = isinstance(gen.iter, ast.Call) and call_name(
                 gen.iter) == 'sorted'
@@ -295,48 +294,139 @@ def check_select_shape(ctx):
                            gen.iter, ast.Name) else None,
                        at=meth.where(comp),
                        detail='ids are a set: original order needs sorted()')
-            conds = []
-            for cond in gen.ifs:
-                if isinstance(cond, ast.BoolOp) and isinstance(cond.op,
-                                                               ast.And):
-                    conds.extend(cond.values)
-                elif isinstance(cond, ast.BoolOp):
-                    conds.append(cond)       # an `or`: recognised-wrong
-                else:
-                    conds.append(cond)
-            inc = exc = None
-            bad_or = any(isinstance(c, ast.BoolOp) for c in conds)
-            for cond in conds:
-                pol = True
-                inner = cond
-                if isinstance(inner, ast.UnaryOp) and isinstance(
-                        inner.op, ast.Not):
-                    pol = False
-                    inner = inner.operand
-                if isinstance(inner, ast.Call) and receiver(inner) is not \
-                        None:
-                    src = _set_source(receiver(inner), assigns)
-                    cname = call_name(inner)
-                    if src == 'include':
-                        inc = (cname == 'issubset' and pol) or (
-                            cname == 'difference' and not pol)
-                    elif src == 'exclude':
-                        exc = (cname in ('intersection',) and not pol) or (
-                            cname == 'isdisjoint' and pol)
+        # the include / exclude predicate: a comprehension with a filter
+        # built from <include set>.issubset(item) / <exclude set>
+        # .intersection(item); evaluated over the four cells
+        # {has every required key} x {has a forbidden key}
+        found = _include_exclude_filters(meth, assigns)
+        if not found:
+            ctx.violated('SELECT-SHAPE', meth, f'{mname}: include / exclude '
+                         f'are never applied to the candidates',
+                         at=meth.where())
+            continue
+        for comp, cond, removes, guards in found:
+            table = {}
+            for has_all in (True, False):
+                for has_bad in (True, False):
+                    val = _eval_keep(cond, has_all, has_bad, assigns)
+                    if val is not None and removes:
+                        val = not val
+                    table[(has_all, has_bad)] = val
+            want = {(True, False): True, (True, True): False,
+                    (False, False): False, (False, True): False}
+            ctx.count('decision_table_rows', 4)
+            cond_ok = None if None in table.values() else table == want
             ctx.decide('SELECT-SHAPE', meth,
-                       f'{mname}: required keys all present',
-                       False if bad_or else inc, at=meth.where(comp))
+                       f'{mname}: an item is kept exactly when it has every '
+                       f'required key and no forbidden key '
+                       f'(`{txt(cond)[:70]}`)', cond_ok,
+                       at=meth.where(comp),
+                       detail={f'required_ok={k[0]},forbidden_present={k[1]}':
+                               v for k, v in table.items()})
+            bad_guards = [g for g in guards if not _emptiness_test(g)]
             ctx.decide('SELECT-SHAPE', meth,
-                       f'{mname}: forbidden keys all absent',
-                       False if bad_or else exc, at=meth.where(comp))
-            shapes[mname] = (txt(comp.elt), txt(gen.iter),
-                             sorted(txt(c) for c in conds))
+                       f'{mname}: the include / exclude filter is applied '
+                       f'to every candidate (guards: '
+                       f'{[txt(g)[:40] for g in guards]})',
+                       not bad_guards, at=meth.where(comp),
+                       detail=f'the filter is skipped when '
+                              f'`{txt(bad_guards[0])[:60]}` is false: a '
+                              f'candidate that lacks a required key (or has '
+                              f'a forbidden one) is then selected'
+                       if bad_guards else None)
+            shapes[mname] = ' '.join(sorted(txt(cond).replace(
+                'self.content[i]', 'ITEM').replace('item', 'ITEM').split()))
     if len(shapes) == 2:
         one, two = shapes['filter_by'], shapes['select_by']
         ctx.decide('SELECT-SHAPE', klass,
-                   'filter_by and select_by apply the same selection',
+                   'filter_by and select_by apply the same predicate',
                    True if one == two else None, at=klass.module.relpath,
-                   detail={'filter_by': one, 'select_by': two})
+                   detail={'filter_by': one, 'select_by': two},
+                   nontrivial=False)
+
+
+def _include_exclude_filters(meth, assigns):
+    '''[(comprehension, condition, removes?, enclosing if-tests)].'''
+    parents = {}
+    for node in ast.walk(meth.node):
+        for child in ast.iter_child_nodes(node):
+            parents[id(child)] = node
+    out = []
+    for comp in walk_local(meth.node):
+        if not isinstance(comp, (ast.ListComp, ast.SetComp,
+                                 ast.GeneratorExp)):
+            continue
+        conds = [c for gen in comp.generators for c in gen.ifs]
+        if not conds:
+            continue
+        cond = conds[0] if len(conds) == 1 else ast.BoolOp(op=ast.And(),
+                                                          values=conds)
+        srcs = {_set_source(receiver(c), assigns) for c in ast.walk(cond)
+                if isinstance(c, ast.Call) and receiver(c) is not None}
+        if not srcs & {'include', 'exclude'}:
+            continue
+        # is the comprehension the set of REJECTED items (x -= {...})?
+        removes = False
+        cur = comp
+        guards = []
+        while parents.get(id(cur)) is not None:
+            par = parents[id(cur)]
+            if isinstance(par, ast.AugAssign) and isinstance(par.op,
+                                                             ast.Sub):
+                removes = True
+            if isinstance(par, ast.Call) and call_name(par) in (
+                    'difference', 'difference_update') and cur in par.args:
+                removes = True
+            if isinstance(par, ast.BinOp) and isinstance(par.op, ast.Sub) \
+                    and cur is par.right:
+                removes = True
+            if isinstance(par, ast.If) and (cur in par.body or any(
+                    cur is s for s in par.body)):
+                guards.append(par.test)
+            elif isinstance(par, ast.If) and cur in par.orelse:
+                guards.append(ast.UnaryOp(op=ast.Not(), operand=par.test))
+            cur = par
+        out.append((comp, cond, removes, guards))
+    return out
+
+
+def _eval_keep(cond, has_all, has_bad, assigns):
+    if isinstance(cond, ast.BoolOp):
+        vals = [_eval_keep(v, has_all, has_bad, assigns)
+                for v in cond.values]
+        if None in vals:
+            return None
+        return all(vals) if isinstance(cond.op, ast.And) else any(vals)
+    if isinstance(cond, ast.UnaryOp) and isinstance(cond.op, ast.Not):
+        val = _eval_keep(cond.operand, has_all, has_bad, assigns)
+        return None if val is None else not val
+    if isinstance(cond, ast.Call) and receiver(cond) is not None:
+        src = _set_source(receiver(cond), assigns)
+        cname = call_name(cond)
+        if src == 'include' and cname == 'issubset':
+            return has_all
+        if src == 'include' and cname == 'difference':
+            return not has_all          # non-empty difference: a key lacks
+        if src == 'exclude' and cname == 'intersection':
+            return has_bad
+        if src == 'exclude' and cname == 'isdisjoint':
+            return not has_bad
+    return None
+
+
+def _emptiness_test(test):
+    '''A guard that only asks whether include / exclude are empty: skipping
+    the filter is then harmless.'''
+    for node in ast.walk(test):
+        if isinstance(node, ast.Name) and node.id not in (
+                'include', 'exclude', 'sincl', 'sexcl', 'bool', 'len'):
+            return False
+        if isinstance(node, (ast.Attribute, ast.Subscript)):
+            return False
+        if isinstance(node, ast.Call) and call_name(node) not in ('bool',
+                                                                  'len'):
+            return False
+    return True
 
 
 def _set_source(expr, assigns):
